@@ -16,6 +16,7 @@ RULES = [
     (r"::str_to_(optimization|vulnerability|qa)::macro:panic", "config", "unknown pattern name: C14 requires the run to fail"),
     (r"^src/opts\.rs::", "cli", "option handling (C14)"),
     (r"^src/report/generation\.rs::generate_report::call:expect", "io", "writing the report (C18)"),
+    (r"^src/report/.*::cast:usize", "bounded", "`variant as usize`: enum discriminant, cannot fail"),
     (r"^src/report/.*::arith:", "string-or-count", "`+` on `String`s and usize counters bounded by the number of findings"),
     (r"^src/analyzer/utils\.rs::get_line_number::call:unwrap", "regex", "constant regex compiles; capture group 0 always participates"),
     (r"^src/analyzer/utils\.rs::get_line_number::arith", "bounded", "i32 line counter: fewer than 2^31 lines"),
